@@ -162,12 +162,12 @@ CHECKS['C13'] = {
     'verus_units': ['parser'],
     'clause_prefixes': ['c13'],
     'technique': 'contract-based deductive verification (Verus): BinaryOperators::new / get, Parser::get_token_precedence and Parser::parse_unary_operator extracted from /repo; the precedence numbers are read from the source on every run, the functions are proved to use exactly them, and a lemma proves that the numbers realise the standard SQL chain',
-    'claim': 'Proof that the precedence table the parser consults (symbolic operators, IS/IN/AND/OR keywords, ::, [ ]) and the operand levels of prefix NOT and unary minus realise OR < AND < NOT < comparisons = IS = IN < + - < * / < unary minus <= :: = [ ] <= qualified names, and that get_token_precedence / parse_unary_operator use exactly these numbers. NOT covered: that precedence climbing (parse_binary_operator_rhs) turns a correct table into the reference grouping, the tokenizer, and one-element IN lists - these were repaired and are demonstrated by replays only.',
+    'claim': 'Proof that the precedence table the parser consults (symbolic operators, IS/IN/AND/OR keywords, ::, [ ]) and the operand levels of prefix NOT and unary minus realise OR < AND < NOT < comparisons = IS = IN < + - < * / < unary minus <= :: = [ ] <= qualified names, and that get_token_precedence / parse_unary_operator use exactly these numbers. The body of parse_binary_operator_rhs is verified too, with the textbook invariant of precedence climbing as an in-body obligation: the right operand of an operator of level p is extended only through a recursive call with minimum level p + 1 (tighter operators only, equal levels associate to the left). NOT covered: a full proof that the resulting tree is the reference grouping, the tokenizer, and one-element IN lists - repaired and demonstrated by replays only.',
     'note': 'Trusted: HashMap<Operator, BinaryOperator> as a finite map (VOpMap), derived Token equality, parse_binary_operator_rhs / parse_primary_expression as stand-ins that only record the minimum precedence they are called with. A renumbering of the levels that keeps the order verifies; a change of the order fails the lemma.',
     'level': 'proof',
     'explanation': 'Table-level proof (DESIGN C13): self-generated conditions - constants P_* are cut from the source text, the extracted functions must return them, lemma_precedence_chain relates them as the property demands.',
-    'trusted': COMMON_TRUST + ['precedence climbing itself (parse_binary_operator_rhs) is not under contract'],
-    'unproved': ['Parser::parse_binary_operator_rhs', 'tokenizer operator fusion', 'parenthesised tuple / one-element IN handling'],
+    'trusted': COMMON_TRUST + ['parse_primary_expression / parse_expression_internal are stand-ins; the recursive call of parse_binary_operator_rhs is a stand-in that records its minimum level'],
+    'unproved': ['reference-grouping correctness of the whole expression parser', 'tokenizer operator fusion', 'parenthesised tuple / one-element IN handling'],
 }
 CHECKS['C14'] = {
     'verus_units': ['parser'],
